@@ -201,10 +201,22 @@ impl Baton {
 
 // ------------------------------------------------------------------ lock events
 
+thread_local! {
+    static CUR_OP: Cell<&'static str> = const { Cell::new("(none)") };
+}
+/// label the public operation the calling thread is about to perform (for the coverage table of C35)
+pub fn set_op(name: &'static str) {
+    CUR_OP.with(|c| c.set(name));
+}
+
+pub type Pattern = (Vec<&'static str>, &'static str);
+
 #[derive(Default)]
 pub struct LockLog {
     /// distinct acquisition patterns: (sorted held set, lock)
-    pub patterns: Mutex<BTreeSet<(Vec<&'static str>, &'static str)>>,
+    pub patterns: Mutex<BTreeSet<Pattern>>,
+    /// the same, per public operation during which they were observed
+    pub by_op: Mutex<std::collections::BTreeMap<&'static str, BTreeSet<Pattern>>>,
     pub events: std::sync::atomic::AtomicU64,
 }
 
@@ -217,9 +229,17 @@ impl LockLog {
                 let mut h: Vec<&'static str> = held.to_vec();
                 h.sort();
                 h.dedup();
-                let mut g = me.patterns.lock().unwrap();
-                if !g.contains(&(h.clone(), lock)) {
-                    g.insert((h, lock));
+                let op = CUR_OP.with(|c| c.get());
+                {
+                    let mut g = me.patterns.lock().unwrap();
+                    if !g.contains(&(h.clone(), lock)) {
+                        g.insert((h.clone(), lock));
+                    }
+                }
+                let mut b = me.by_op.lock().unwrap();
+                let e = b.entry(op).or_default();
+                if !e.contains(&(h.clone(), lock)) {
+                    e.insert((h, lock));
                 }
             }
         })));
